@@ -97,6 +97,9 @@ pub assume_specification<T, P: FnOnce(&T) -> bool>[Option::<T>::filter](o: Optio
 pub struct AnyClosure { pub _p: () }
 #[verifier::external_body]
 pub fn opaque_closure_value() -> AnyClosure { unimplemented!() }
+pub assume_specification<T, A: core::alloc::Allocator>[VecDeque::<T, A>::is_empty](v: &VecDeque<T, A>) -> (r: bool)
+    ensures r == (v@.len() == 0);
+
 /// R24: an `async { .. }` block that is not lifted: a future value of whatever type the context needs; creating it has no effect
 #[verifier::external_body]
 pub fn opaque_async_value<T>() -> T { unimplemented!() }
